@@ -2129,6 +2129,10 @@ class Cluster(object):
     def _finalize_add(self, host, set_up=True):
         if set_up:
             host.set_up()
+            # a down event received while the pools were being opened may have started one
+            reconnector = host.get_and_set_reconnection_handler(None)
+            if reconnector:
+                reconnector.cancel()
 
         for listener in self.listeners:
             listener.on_add(host)
